@@ -325,3 +325,82 @@ B("C08", BASE, "                    inds = jnp.asarray(self._edge_inds_within_ty
 B("C08", IG, "        edge_inds_within_type[ind] if state in module.synapse_state_names else ind", "        ind", "R-C08-space")
 B("C08", BASE, "                inds, self._edges_in_view if is_edge_state else self._nodes_in_view\n            )", "                inds, self._nodes_in_view\n            )", "R-C08-space")
 B("C08", BASE, '                ptr_recs["rec_index"].isin(self._edges_in_view),\n', '                ptr_recs["rec_index"].isin(self._comps_in_view),\n', "R-C08-space")
+# ---------------------------------------------------------------------------------------- session 3 rules
+# R-C13-rows on positions of the original table: drop-then-cut == cut at start and at start + n_old
+P("C13", BASE, "        all_nodes = all_nodes.drop(index=range(start_idx, start_idx + number_deleted))\n\n        # 2) Insert M new rows at the same location\n        df1 = all_nodes.iloc[:start_idx]  # Rows before the insertion point\n        df2 = all_nodes.iloc[start_idx:]  # Rows after the insertion point",
+  "        df1 = all_nodes.iloc[:start_idx]  # Rows before the insertion point\n        df2 = all_nodes.iloc[start_idx + number_deleted :]  # Rows after the insertion point")
+B("C13", BASE, "        df2 = all_nodes.iloc[start_idx:]  # Rows after the insertion point", "        df2 = all_nodes.iloc[start_idx + 1 :]  # Rows after the insertion point", "R-C13-rows")
+B("C13", BASE, '        all_nodes["global_comp_index"] = np.arange(len(all_nodes))', '        all_nodes["global_comp_index"] = np.arange(1, len(all_nodes) + 1)', "R-C13-rows")
+P("C13", BASE, '        all_nodes["global_comp_index"] = np.arange(len(all_nodes))', '        all_nodes["global_comp_index"] = np.arange(all_nodes.shape[0])')
+B("C13", BASE, '        view = pd.concat([*[average_row] * ncomp], axis="rows")', '        view = pd.concat([*[average_row] * num_previous_ncomp], axis="rows")', "R-C13-rows")
+P("C13", BASE, '        view = pd.concat([*[average_row] * ncomp], axis="rows")', '        view = pd.concat([average_row for _ in range(ncomp)], axis="rows")')
+# R-C13-layout / R-C13-ends (shared with C01)
+B("C13", SU, "    return padded_cumsum_ncomp[branch_inds] + remainders", "    padding = padded_cumsum_ncomp - cumsum_ncomp_per_branch\n    return index + padding[branch_inds + 1]", "R-C13-layout")
+P("C13", SU, "    return padded_cumsum_ncomp[branch_inds] + remainders", "    padding = padded_cumsum_ncomp - cumsum_ncomp_per_branch\n    return index + padding[branch_inds]")
+B("C13", CELL, '                "sink": self.cumsum_ncomp[self._par_inds + 1] - 1,', '                "sink": self.cumsum_ncomp[self._par_inds] + self.ncomp - 1,', "R-C13-ends")
+for _p in ("C01", "C13"):
+    B(_p, CELL, '        parent_to_branchpoint_edges["type"] = 3', '        parent_to_branchpoint_edges["type"] = 4', "R-%s-ends" % _p)
+    B(_p, CELL, "        child_to_branchpoint_edges = branchpoint_to_child_edges.rename(", "        child_to_branchpoint_edges = branchpoint_to_parent_edges.rename(", "R-%s-ends" % _p)
+    B(_p, CELL, '                "source": self._child_belongs_to_branchpoint + self.cumsum_ncomp[-1],', '                "source": self._child_belongs_to_branchpoint + self.cumsum_ncomp[-1] + 1,', "R-%s-ends" % _p)
+    P(_p, CELL, "        parent_to_branchpoint_edges = branchpoint_to_parent_edges.rename(\n            columns={\"sink\": \"source\", \"source\": \"sink\"}\n        )\n        parent_to_branchpoint_edges[\"type\"] = 3",
+      "        p2bp = branchpoint_to_parent_edges.rename(\n            columns={\"source\": \"sink\", \"sink\": \"source\"}\n        )\n        p2bp[\"type\"] = 3\n        parent_to_branchpoint_edges = p2bp")
+# sorted distinct parents (C01/C12)
+for _p, _r in (("C01", "R-C01-levels"), ("C12", "R-C12-offsets")):
+    B(_p, CU, "    par_inds = np.unique(par_inds)\n    return par_inds, child_inds, child_belongs_to_branchpoint", "    par_inds = pd.unique(par_inds)\n    return par_inds, child_inds, child_belongs_to_branchpoint", _r)
+    P(_p, CU, "    par_inds = np.unique(par_inds)\n    return par_inds, child_inds, child_belongs_to_branchpoint", "    par_inds = np.sort(pd.unique(par_inds))\n    return par_inds, child_inds, child_belongs_to_branchpoint")
+# compute_levels on terms
+B("C01", CU, "            levels[i] = levels[p] + 1", "            levels[i] = levels[p] + 2", "R-C01-levels")
+B("C01", CU, "            levels[i] = levels[p] + 1", "            levels[i] = levels[i - 1] + 1", "R-C01-levels")
+B("C01", CU, "        if p == -1:\n            levels[i] = 0", "        if p == 0:\n            levels[i] = 0", "R-C01-levels")
+P("C01", CU, "        if p == -1:\n            levels[i] = 0\n        else:\n            levels[i] = levels[p] + 1", "        if p != -1:\n            levels[i] = 1 + levels[p]\n        else:\n            levels[i] = 0")
+P("C01", CU, "    num_branches = len(levels)\n    children_in_each_level = []", "    levels = np.asarray(levels)\n    num_branches = len(levels)\n    children_in_each_level = []")
+# C12: pinned element of the per-cell sequences
+B("C12", NW, "            offset_within_cell = cell.cumsum_ncomp[-1]\n            condition = cell._comp_edges[\"type\"].isin([1, 2])", "            offset_within_cell = self._cells_list[0].cumsum_ncomp[-1]\n            condition = cell._comp_edges[\"type\"].isin([1, 2])", "R-C12-offsets")
+# C17: flag-parameterised private helper
+P("C17", TF, "        return jax.tree_util.tree_map(lambda x, tf: tf.forward(x), params, self.tf_dict)", "        def leaf(x, tf, inverse=False):\n            if inverse:\n                return tf.inverse(x)\n            return tf.forward(x)\n\n        return jax.tree_util.tree_map(leaf, params, self.tf_dict)")
+B("C17", TF, "        return jax.tree_util.tree_map(lambda x, tf: tf.forward(x), params, self.tf_dict)", "        def leaf(x, tf, inverse=True):\n            if inverse:\n                return tf.inverse(x)\n            return tf.forward(x)\n\n        return jax.tree_util.tree_map(leaf, params, self.tf_dict)", "R-C17-struct")
+# C10: to_jax coverage on terms, alias of a chained assignment, accumulate onto the base registry
+P("C10", BASE, "        self.base.jaxedges = {}\n        edges = self.base.edges.to_dict(orient=\"list\")", "        jaxedges = self.base.jaxedges = {}\n        edges = self.base.edges.to_dict(orient=\"list\")")
+B("C10", BASE, "            for key in synapse.synapse_states:\n                self.base.jaxedges[key] = jnp.asarray(np.asarray(edges[key])[condition])", "            for key in list(synapse.synapse_states)[:0]:\n                self.base.jaxedges[key] = jnp.asarray(np.asarray(edges[key])[condition])", "R-C10-tojax")
+for _p, _r in (("C10", "R-C10-groups"), ("C11", "R-C11-basestate")):
+    B(_p, BASE, "                np.concatenate([self.base.groups[group_name], self._nodes_in_view])", "                np.concatenate([self.groups[group_name], self._nodes_in_view])", _r)
+B("C10", BASE, "        self.base.to_jax()\n        pstate = params_to_pstate(trainable_params, self.base.indices_set_by_trainables)\n        all_params = self.base.get_all_parameters(pstate, voltage_solver=\"jaxley.stone\")",
+  "        pstate = params_to_pstate(trainable_params, self.base.indices_set_by_trainables)\n        all_params = self.base.get_all_parameters(pstate, voltage_solver=\"jaxley.stone\")\n        self.base.to_jax()", "R-C10-tojax")
+# key class decided on the base (C08/C11/C19)
+for _p in ("C08", "C11", "C19"):
+    B(_p, BASE, '            is_edge_state = ptr_recs["state"].isin(self.base.synapse_state_names)', '            is_edge_state = ptr_recs["state"].isin(self.synapse_state_names)', "R-%s-keyclass" % _p)
+# C19: synapse roles shared, de-duplication on terms
+B("C19", NW, '                params["radius"][post_inds],\n                params["length"][post_inds],', '                params["radius"][pre_inds],\n                params["length"][post_inds],', "R-C19-simulates")
+B("C19", BASE, "        has_duplicates = self.base.recordings.duplicated()", '        has_duplicates = self.base.recordings.duplicated(subset=["rec_index"])', "R-C19-pair")
+P("C19", BASE, "        has_duplicates = self.base.recordings.duplicated()\n        self.base.recordings = self.base.recordings.loc[~has_duplicates]", "        dup = self.base.recordings.duplicated()\n        has_duplicates = dup\n        self.base.recordings = self.base.recordings.loc[~dup]")
+# C18: class-level containers over the MRO, sharing on terms
+# (class-level container rule: exercised by the stored change C18-m6, which needs two cooperating edits)
+B("C18", NW, "            self.xyzr += deepcopy(cell.xyzr)", "            self.xyzr += cell.xyzr", "R-C18-share")
+P("C18", NW, "            self.xyzr += deepcopy(cell.xyzr)", "            self.xyzr.extend(deepcopy(cell.xyzr))")
+B("C18", NW, "        del self._cells_list", "        pass", "R-C18-share")
+# C11: hierarchy / iteration / re-ranking on terms
+B("C11", BASE, "        for i, child in zip(index, child_views):", "        for i, child in zip(index, child_views[::-1]):", "R-C11-filter")
+P("C11", BASE, "        child_views = self._childviews()\n        assert len(index) <= len(child_views), \"Too many indices.\"\n        view = self\n        for i, child in zip(index, child_views):\n            view = view._at_nodes(child, i)",
+  "        levels_below = self._childviews()\n        assert len(index) <= len(levels_below), \"Too many indices.\"\n        view = self\n        for level, i in zip(levels_below, index):\n            view = view._at_nodes(level, i)")
+B("C11", BASE, "            children = levels[levels.index(self._current_view) + 1 :]", "            children = levels[levels.index(self._current_view) :]", "R-C11-filter")
+B("C11", BASE, '        yield from self._iter_submodules("branch")', '        yield from self._iter_submodules("comp")', "R-C11-filter")
+B("C11", BASE, "        idcs = reindex_a_by_b(idcs, global_idx_cols[2], global_idx_cols[:2])", "        idcs = reindex_a_by_b(idcs, global_idx_cols[2], global_idx_cols[0])", "R-C11-rerank")
+P("C11", BASE, "        idcs = reindex_a_by_b(idcs, global_idx_cols[2], global_idx_cols[:2])", "        idcs = reindex_a_by_b(idcs, global_idx_cols[2], global_idx_cols[1])")
+B("C11", BASE, '        rerank = lambda df: df.rank(method="dense").astype(int) - 1', '        rerank = lambda df: df.rank(method="min").astype(int) - 1', "R-C11-rerank")
+B("C11", BASE, '        rerank = lambda df: df.rank(method="dense").astype(int) - 1', '        rerank = lambda df: df.rank(method="dense").astype(int)', "R-C11-rerank")
+B("C11", BASE, "            grouped_df = df.groupby(b) if b is not None else df", "            grouped_df = df", "R-C11-rerank")
+# C16 forms on terms
+B("C16", SWC, "            pathlengths[i] = 1.0", "            pathlengths[i] = 1e-3", "R-C16-forms")
+B("C16", SWC, "    lengths_each = np.repeat(pathlengths, ncomp) / ncomp", "    lengths_each = np.repeat(pathlengths, ncomp) / (ncomp + 1)", "R-C16-forms")
+P("C16", SWC, "    lengths_each = np.repeat(pathlengths, ncomp) / ncomp\n    cell.set(\"length\", lengths_each)", "    per_comp = np.repeat(pathlengths, ncomp) / ncomp\n    cell.set(\"length\", per_comp)")
+B("C16", SWC, "            indices = np.where(types == type_ind)[0].tolist()", "            indices = np.where(types >= type_ind)[0].tolist()", "R-C16-forms")
+B("C16", CU, "        radiuses_each[radiuses_each < min_radius] = min_radius", "        radiuses_each[radiuses_each > min_radius] = min_radius", "R-C16-forms")
+B("C16", CU, "    radiuses = np.asarray([radius_fns[b](range_) for b in branch_indices])", "    radiuses = np.asarray([radius_fns[i](range_) for i, b in enumerate(branch_indices)])", "R-C16-forms")
+P("C16", CU, "    radiuses = np.asarray([radius_fns[b](range_) for b in branch_indices])", "    fns = [radius_fns[b] for b in branch_indices]\n    radiuses = np.asarray([f(range_) for f in fns])")
+# C08 step-current siblings on terms
+B("C08", STIM, "    window_end = int((i_delay + i_dur) / dt)\n    time_steps = int(t_max // dt) + 2\n    current = jnp.zeros((time_steps, dim)) + i_offset", "    window_end = int((i_delay + i_dur) / dt) + 1\n    time_steps = int(t_max // dt) + 2\n    current = jnp.zeros((time_steps, dim)) + i_offset", "R-C08-time")
+P("C08", STIM, "    window_start = int(i_delay / dt)\n    window_end = int((i_delay + i_dur) / dt)\n    time_steps = int(t_max // dt) + 2\n    current = jnp.zeros((time_steps,)) + i_offset\n    return current.at[window_start:window_end].set(i_amp)",
+  "    start = int(i_delay / dt)\n    stop = int((i_delay + i_dur) / dt)\n    n_steps = int(t_max // dt) + 2\n    current = jnp.zeros((n_steps,)) + i_offset\n    return current.at[start:stop].set(i_amp)")
+# C20 column naming through rename
+P("C20", NW, '        pre_nodes = pre_nodes[["global_comp_index"]]\n        pre_nodes.columns = ["pre_global_comp_index"]', '        pre_nodes = pre_nodes[["global_comp_index"]].rename(columns={"global_comp_index": "pre_global_comp_index"})')
+B("C20", NW, '        pre_nodes = pre_nodes[["global_comp_index"]]\n        pre_nodes.columns = ["pre_global_comp_index"]', '        pre_nodes = pre_nodes[["global_comp_index"]].rename(columns={"global_comp_index": "post_global_comp_index"})', "R-C20-roles")
